@@ -41,10 +41,12 @@ def convertIeee (nt : Native) (c : Cfg) (t : Thresholds) (v logv : Nat) : Nat :=
   let ue := expOf f v
   let rf := fracOf f v
   let fmask := 2 ^ f.fbits - 1
-  -- special exponent: only three NaN fractions and fraction 0 (infinity) are recognised
+  -- special exponent: three NaN fractions, fraction 0 (infinity), and — since the fix "lns convert_ieee754 must map every NaN
+  -- payload to the NaN encoding" — `setnan(); return *this;` for every remaining fraction
   if ue == f.eAll && (rf == (fmask &&& nt.snanmask) || rf == (fmask &&& (nt.qnanmask ||| nt.snanmask))) then setNaN n
   else if ue == f.eAll && rf == (fmask &&& nt.qnanmask) then setNaN n
   else if ue == f.eAll && rf == 0 then (if s then maxnegEnc n else maxposEnc n)     -- setinf(s)
+  else if ue == f.eAll then setNaN n
   else if IeeeBits.isZero f v then setZero n                                          -- v == 0.0
   else
     let satEarly : Option Nat :=
